@@ -673,6 +673,9 @@ def verify_contract(I, c, timeout_ms=10000, only_case=None):
         res.status, res.message = 'undecided', 'function %s not found in %s (contract no longer attaches)' % (
             c.qualname, c.path)
         return res
+    if getattr(c, 'real_bodies_only', False):
+        # every callee runs its own body (no contract stands in for one): for concrete pre-states through several layers
+        I.contracts = {}
     if getattr(c, 'no_loop_cuts', False):
         # a concrete pre-state (e.g. a concrete token sequence): every loop on the way is executed, none is cut at an invariant
         I.loopspecs.clear()
